@@ -106,6 +106,83 @@ def replay_trigonal(data):
 REPLAY = {"p1": replay_p1, "trig": replay_trigonal}
 
 
+def replay_density(data):
+    """real API: a P-1 crystal with one atom on the inversion centre at the origin (its two images merge into one site with
+    summed occupation) and a general-position atom: density of the crystal and of its P1 / supercell forms"""
+    from chmpy.crystal import Crystal, UnitCell, SpaceGroup, AsymmetricUnit
+    from chmpy.core.element import Element
+    uc = UnitCell.from_lengths_and_angles([6.1, 7.3, 8.7], [np.radians(82.0), np.radians(96.0), np.radians(105.0)])
+    c = Crystal(uc, SpaceGroup(2), AsymmetricUnit([Element[17], Element[8], Element[1], Element[1]],
+                                                  np.array([[0.0, 0.0, 0.0], [0.31, 0.27, 0.22], [0.41, 0.30, 0.17], [0.25, 0.35, 0.31]])))
+    bad = []
+    d0 = c.density
+    vol = abs(np.linalg.det(np.asarray(uc.direct, float)))
+    want = (35.453 + 2 * (15.9994 + 2 * 1.00794)) / vol / 0.6022
+    if abs(d0 - want) > 1e-3 * want:
+        bad.append("density %.5f, cell content Cl + 2 H2O in %.3f A^3 gives %.5f" % (d0, vol, want))
+    for fn, arg in (("as_P1", ()), ("as_P1_supercell", ((2, 1, 1),)), ("to_translational_symmetry", ((1, 1, 2),))):
+        d1 = getattr(c, fn)(*arg).density
+        if abs(d1 - d0) > 1e-6 * d0:
+            bad.append("density %.6f becomes %.6f under %s%s" % (d0, d1, fn, arg))
+    return bool(bad), bad[:3]
+
+
+REPLAY["density"] = replay_density
+
+
+def part_density(ctx):
+    """density is a property of the structure: the real Crystal.density on unit-cell atoms with symbolic (merged) occupations
+    equals the mass of the atoms the P1 form lists, per volume of the P1 cell"""
+    from chmpy.core.element import Element
+    cm = load_shimmed("chmpy.crystal.crystal")
+    ucm = load_shimmed("chmpy.crystal.unit_cell")
+    ucm.UnitCell._set_cell_type = lambda self: None
+    cm.UnitCell = ucm.UnitCell
+    M = np.array([[Sym(z3.Real("m%d%d" % (i, j))) for j in range(3)] for i in range(3)], dtype=object).view(symx.OArr)
+    f = np.array([[Sym(z3.Real("f%d_%d" % (i, k))) for k in range(3)] for i in range(3)], dtype=object).view(symx.OArr)
+    occ = np.array([Sym(z3.Real("occ%d" % i)) for i in range(3)], dtype=object).view(symx.OArr)
+    Z = [17, 8, 1]
+    ex = Explorer()
+    ex.base = [det3(M).t > 0] + [z3.And(o.t > 0, o.t <= 4) for o in occ]
+    cm.Crystal.__init__ = lambda self, uc, sg, asym, **kw: (setattr(self, "unit_cell", uc), setattr(self, "space_group", sg),
+                                                           setattr(self, "asymmetric_unit", asym), setattr(self, "properties", dict(kw)))[0]
+
+    def body():
+        uc = ucm.UnitCell(M)
+        cr = cm.Crystal.__new__(cm.Crystal)
+        cr.unit_cell = uc
+        cr.properties = {"titl": "t"}
+        cart = np.dot(f, uc.direct).view(symx.OArr)
+        cr.unit_cell_molecules = lambda: [FakeMol(cart[:1], Z[:1]), FakeMol(cart[1:], Z[1:])]
+        cr.unit_cell_atoms = lambda *a, **k: {"element": np.array(Z), "occupation": occ, "frac_pos": f, "asym_atom": np.arange(3), "cart_pos": cart,
+                                              "symop": np.array([16484] * 3), "label": np.array(["a", "b", "c"])}
+        cr.space_group = None
+        d0 = cm.Crystal.density.fget(cr)
+        v0 = uc.volume()
+        new = cr.as_P1()
+        return uc, (d0, v0), new
+    paths = ex.run(body)
+    ctx.add_paths(ex)
+    bad = False
+    for p in paths:
+        if p.exc is not None:
+            ctx.harness_error("density / as_P1 raised symbolically: %r" % (p.exc,))
+            continue
+        uc, (d0, v0), new = p.value
+        mass = sum(symx._nice_fraction(float(Element[int(z)].mass)) for z in new.asymmetric_unit.atomic_numbers)
+        with ex.post(p.pc):
+            # the volume is generalised to any positive real: that UnitCell.volume() is |det| of the lattice is C12's lemma, and the
+            # supercell lemma above shows that the P1 form has the same lattice
+            vv = Sym(z3.Real("vol_generalised"))
+            d0g = Sym(z3.substitute(Sym._lift(d0).t, (Sym._lift(v0).t, vv.t))) if not z3.is_rational_value(Sym._lift(v0).t) else Sym._lift(d0)
+            r = ctx.query("density (merged site occupations symbolic): Crystal.density x volume x 0.6022 = mass of the atoms the P1 form lists (volume generalised to any positive real)",
+                          ex.pc + [vv.t > 0], (d0g * vv * symx._nice_fraction(0.6022) == Sym(z3.RealVal(mass))).t, ex=ex, timeout=60)
+        if r.verdict == "cex":
+            bad = True
+    if bad:
+        ctx.violation("density:p1", "density of a crystal whose unit-cell sites carry merged occupations differs from the density of its P1 form", {}, replay_density)
+
+
 # ------------------------------------------------------------------------------------- run
 def run(ctx):
     from chmpy.crystal.crystal import Crystal
@@ -116,8 +193,8 @@ def run(ctx):
               "trigonal: symbolic a, c and coordinates, the seven R-lattice groups")
     ctx.assume("reals for doubles")
     ctx.stub("unit_cell_molecules() returns molecules with symbolic Cartesian positions f.D (its correctness is C04's subject)")
-    ctx.out_of_scope("density through unit_cell_atoms of the new crystal (numeric replay only)")
-    ctx.parallel_sections([("supercell", part_supercell), ("trigonal", part_trigonal)])
+    ctx.out_of_scope("density of the new crystal through its own unit_cell_atoms (the density lemma compares with the mass of the atoms the P1 form lists)")
+    ctx.parallel_sections([("supercell", part_supercell), ("trigonal", part_trigonal), ("density", part_density)])
 
 
 class FakeMol:
